@@ -89,7 +89,7 @@ def check_case(stats, case):
 
 def run_shard(k, seed, tier):
     stats = Stats()
-    n = 220 if tier == 'quick' else 3000
+    n = 450 if tier == 'quick' else 8000
     strat = programs(features=ALL_FEATURES, size=dict(main_stmts=12, funcs=5))
 
     def chk(case):
